@@ -122,6 +122,35 @@ func checkRunIDOrigin(c *Ctx) {
 						okv = true
 					}
 				}
+				// the constructor may receive the identifier: then every call of it in the module passes a nextEchoID() made for
+				// that very call (same function, same loop nest)
+				if pa, isParam := c.P.Def(st.Val).(*ssa.Parameter); isParam && pa.Parent() == f {
+					idx := -1
+					for k, q := range f.Params {
+						if q == pa {
+							idx = k
+						}
+					}
+					sites, good := 0, 0
+					if node := c.P.CallGraph().Nodes[f]; node != nil && idx >= 0 {
+						for _, e := range node.In {
+							if e.Caller.Func == nil || !core.InModule(e.Caller.Func) || e.Site == nil {
+								continue
+							}
+							sites++
+							cc := e.Site.Common()
+							if cc.IsInvoke() || cc.StaticCallee() != f || idx >= len(cc.Args) {
+								continue
+							}
+							if call, ok := c.P.Def(cc.Args[idx]).(*ssa.Call); ok {
+								if cal := call.Common().StaticCallee(); cal != nil && core.FuncName(cal) == "icmp.nextEchoID" && call.Parent() == e.Site.Parent() && sameLoopNest(call.Parent(), call.Block(), e.Site.Block()) {
+									good++
+								}
+							}
+						}
+					}
+					okv = sites > 0 && sites == good
+				}
 				R.Check(okv, "R11.1", core.FuncName(f)+"#echoID", st.Pos(), core.FuncName(f), "echoID = nextEchoID() (fresh per driver instance)", "echoID is not assigned from the allocator nextEchoID()")
 			}
 		}
@@ -760,4 +789,18 @@ func expandHelperResults(p *core.Prog, t *core.Term) []*core.Term {
 		return []*core.Term{t}
 	}
 	return out
+}
+
+// sameLoopNest: both blocks of f have the same innermost enclosing loop (or none).
+func sameLoopNest(f *ssa.Function, a, b *ssa.BasicBlock) bool {
+	la, lb := innermostLoop(f, a), innermostLoop(f, b)
+	if len(la) != len(lb) {
+		return false
+	}
+	for k := range la {
+		if !lb[k] {
+			return false
+		}
+	}
+	return true
 }
